@@ -147,6 +147,7 @@ let nancs (h : nhist) : Bytes.t array =
 let nanc (a : Bytes.t array) c x =
   c >= 0 && c < Array.length a && x >= 0 && x < Array.length a && Char.code (Bytes.get a.(c) (x lsr 3)) land (1 lsl (x land 7)) <> 0
 
+let rec distinct_strings (l : string list) = match l with [] -> true | x :: r -> not (List.mem x r) && distinct_strings r
 let rec distinct_ints = function [] -> true | x :: r -> not (List.mem x r) && distinct_ints r
 
 let nconflict_free (h : nhist) (a : Bytes.t array) : bool =
@@ -392,6 +393,9 @@ let hist_case id (c : sx) =
   let people = bool_of_sx (List.hd (args (field "people" c))) in
   let flag name def = match field_opt name c with Some f -> bool_of_sx (List.hd (args f)) | None -> def in
   let scale = flag "scale" false in
+  (match field_opt "enc" c with Some f -> count ("line_rendering_" ^ atom (List.hd (args f))) | None -> ());
+  (match field_opt "nenc" c with Some f -> count ("name_rendering_" ^ atom (List.hd (args f))) | None -> ());
+  (match field_opt "modes" c with Some _ -> count "executable_and_regular_entries" | None -> ());
   let model = flag "model" true in
   let (nh, ids) = nhist_of_sx (field "rhist" c) in
   let ntr = native_truth nh g s in
@@ -418,10 +422,78 @@ let hist_case id (c : sx) =
         not (List.exists (fun (_, i, _) -> i = pi) pd.pd_events) &&
         not (List.exists (fun (_, _, n') -> n' = n) pd.pd_events) &&
         (let k = ref 0 in Array.iter (fun n' -> if n' = n then incr k) pd.pd_name0; !k = 1) in
-  let name_of_pi pi = match pdo with None -> List.nth ids pi | Some pd -> pd.pd_name0.(pi) in
-  let pi_of_name p = match pdo with
-    | None -> index_of p ids
-    | Some pd -> let r = ref (-1) in Array.iteri (fun i n -> if n = p && plain i then r := i) pd.pd_name0; !r in
+  (* round 4: a file that is only RENAMED (any number of times), and a new file created on a name that a rename gave up, are judged
+     too, under the name they have at HEAD (single head): the lines follow their file through the renames.  Excluded stay the
+     identities that are deleted and every identity one of whose names was held by a file at the moment it was deleted (hercules
+     drops fileHistories[name] there and the property gives no ground truth for a path that changes identity that way). *)
+  let deleted_names = match pdo with
+    | None -> []
+    | Some pd -> List.filter_map (fun (d, i, n) ->
+        if n <> "" then None
+        else (match (if d >= 0 && d < nh.nn then nh.nparents.(d) else []) with [p] -> Some (nwhere nh a0 pd i p) | _ -> None)) pd.pd_events in
+  (* D4: when an identity takes a name (at its creation, by a rename) no commit concurrent with that commit has another identity
+     under that name - else the replay of a merge commit on that branch sees the path "modified" instead of "moved away + created" *)
+  let takes_ok = match pdo with
+    | None -> true
+    | Some pd when ntr.t_cfree ->
+        let np = Array.length nh.npaths in
+        let takes = ref (List.filter_map (fun (d, i, n) -> if n <> "" && d >= 0 && d < nh.nn then Some (d, i, n) else None) pd.pd_events) in
+        for q = 0 to np - 1 do
+          (* creation: the births without an ancestor that has the identity *)
+          Array.iter (fun l -> let b = l.nl_born in
+            if b >= 0 && b < nh.nn && not (List.exists (fun p -> nborn_in nh a0 q p) nh.nparents.(b)) && not (List.mem (b, q, pd.pd_name0.(q)) !takes)
+            then takes := (b, q, pd.pd_name0.(q)) :: !takes) nh.npaths.(q)
+        done;
+        List.for_all (fun (n, q, nm) ->
+          let ok = ref true in
+          for p = 0 to np - 1 do
+            if p <> q then
+              for c = 0 to nh.nn - 1 do
+                if not (nanc a0 c n) && not (nanc a0 n c) && nwhere nh a0 pd p c = nm then ok := false
+              done
+          done; !ok) !takes
+    | Some _ -> true in
+  if pdo <> None && not takes_ok then count "pathdel_name_taken_while_in_use_on_a_concurrent_branch";
+  (* every commit concurrent with a rename of the identity, and each of its parents, already has the identity (under its old name): no
+     branch receives the file by the replay of a merge commit under a name the rename may already have given up (docs/C01.md, round 4, F27) *)
+  let renames_seen_by_all pi = match pdo with
+    | None -> true
+    | Some pd -> List.for_all (fun (d, i, n) ->
+        i <> pi || n = "" || not (d >= 0 && d < nh.nn) ||
+        (let ok = ref true in
+         for c = 0 to nh.nn - 1 do
+           if not (nanc a0 c d) && not (nanc a0 d c)
+              && not (nborn_in nh a0 pi c && List.for_all (fun p -> p >= 0 && p < nh.nn && nborn_in nh a0 pi p) nh.nparents.(c)) then ok := false
+         done; !ok)) pd.pd_events in
+  let judged_name pi : string option = match pdo with
+    | None -> Some (List.nth ids pi)
+    | Some pd ->
+        if plain pi then Some pd.pd_name0.(pi)
+        else begin
+          let mine = pd.pd_name0.(pi) :: List.filter_map (fun (_, i, n) -> if i = pi && n <> "" then Some n else None) pd.pd_events in
+          if ntr.t_cfree && ntr.t_single && takes_ok
+             && not (List.exists (fun (_, i, n) -> i = pi && n = "") pd.pd_events)
+             && not (List.exists (fun n -> List.mem n deleted_names) mine)
+          then (let w = nwhere nh a0 pd pi (nh.nn - 1) in if w = "" then None else Some w)
+          else None
+        end in
+  let pi_of_name p =
+    let r = ref (-1) in
+    for pi = Array.length nh.npaths - 1 downto 0 do if judged_name pi = Some p then r := pi done; !r in
+  (* known findings F28 / F27 (docs/C01.md, round 4): the per-file tables of a file that is renamed back to a name it had before, resp. of a
+     renamed file one of whose renames is concurrent with a commit that does not have the file yet, are judged like all others; a PROPFAIL
+     about such a file (and only about it) starts with the tag of the finding *)
+  let ftag p = match pdo with
+    | None -> ""
+    | Some pd ->
+        let pi = pi_of_name p in
+        if pi < 0 || plain pi then ""
+        else begin
+          let mine = pd.pd_name0.(pi) :: List.filter_map (fun (_, i, n) -> if i = pi && n <> "" then Some n else None) pd.pd_events in
+          if not (distinct_strings mine) then "[renamed-back-to-earlier-name] "
+          else if not (renames_seen_by_all pi) then "[rename-consumed-before-merge-replay] "
+          else ""
+        end in
   (* the extracted history is needed by the extracted oracle (small cases) and by the analysis model *)
   let hopt = if scale && not model then None else Some (fst (parse_hist (field "rhist" c))) in
   let tr = if scale then ntr else (match hopt with Some h -> extracted_truth h g s | None -> ntr) in
@@ -482,16 +554,17 @@ let hist_case id (c : sx) =
           if files then begin
             count "files_checked";
             let fh = List.map (fun e -> match e with L (A p :: rows) -> (p, matrix_of_sx rows) | _ -> failwith "fhist") (args (field "fhist" obs)) in
-            let wantpaths = List.filter_map (fun pi -> if plain pi then Some (name_of_pi pi) else None) tr.t_paths_with_lines in
+            let wantpaths = List.filter_map judged_name tr.t_paths_with_lines in
+            List.iter (fun pi -> if not (plain pi) && judged_name pi <> None then count "renamed_or_name_reusing_files_judged") tr.t_paths_with_lines;
             List.iter (fun (p, _) -> if not (List.mem p wantpaths) && (pdo = None || not (List.mem p names)) then
                                        propfail id ("file matrix for a path without lines: " ^ p)) fh;
             List.iter (fun p ->
               match List.assoc_opt p fh with
-              | None -> propfail id ("no file matrix for path " ^ p)
+              | None -> propfail id (ftag p ^ "no file matrix for path " ^ p)
               | Some m ->
                   let w = tr.t_file (pi_of_name p) in
-                  (match diff_matrix ("file matrix " ^ p) m w with Some t -> propfail id t | None -> ());
-                  if List.exists (List.exists (fun v -> v < 0)) m then propfail id ("negative cell in the file matrix " ^ p)) wantpaths;
+                  (match diff_matrix ("file matrix " ^ p) m w with Some t -> propfail id (ftag p ^ t) | None -> ());
+                  if List.exists (List.exists (fun v -> v < 0)) m then propfail id (ftag p ^ "negative cell in the file matrix " ^ p)) wantpaths;
             if single then begin
               let ow = List.map (fun e -> match e with
                   | L (A p :: cells) -> (p, List.sort compare (List.map (fun cl -> match ints cl with [d; k] -> (d, k) | _ -> failwith "owner") cells))
@@ -507,10 +580,10 @@ let hist_case id (c : sx) =
                     if tot > 0 then [(-1, tot)] else []
                   end in
                 match List.assoc_opt p ow with
-                | None -> propfail id ("no ownership entry for path " ^ p)
+                | None -> propfail id (ftag p ^ "no ownership entry for path " ^ p)
                 | Some got ->
                     if got <> want then
-                      propfail id (Printf.sprintf "ownership of %s: got %s, ground truth %s" p
+                      propfail id (Printf.sprintf "%sownership of %s: got %s, ground truth %s" (ftag p) p
                         (String.concat "," (List.map (fun (a, b) -> Printf.sprintf "%d:%d" a b) got))
                         (String.concat "," (List.map (fun (a, b) -> Printf.sprintf "%d:%d" a b) want)))) wantpaths
             end
